@@ -61,7 +61,12 @@ MANIFEST = {
             "(from_data / from_raw_buffer(...).get_data()), no private attribute of the package is read. GTF/GFF3 attribute lookup is "
             "modelled (gtfScan / gffAttr, op attrs); buffer row selection is modelled as pickRows before the typed extraction; "
             "np.concatenate of buffers and the column-name-header tables are implementation-vs-reference only. "
-            "Eleven defects found and fixed (known_findings.json).",
+            "Driver-level theorem for the plain delimited family: parseFile_delimited_spec (parseFile = specParse with the selected rows, "
+            "header skip, LF/CRLF, row selection; schema hypotheses discharged for the regenerated schemas by gen_delimited_family); "
+            "genotype matrix reader tabulated into Gen.C02.gtTable (512 fields) and tied to the model by gen_genotype_table; "
+            "genotype_accept_iff, strandColumn_ok_iff, shiftCol_others, parseDelimited_sel_out_of_range. SAM, k-line, FASTA, interior-comment "
+            "and VCF-flavour whole-file parses remain correspondence only (audit/review-C01-C10.md). "
+            "Twelve defects found and fixed (known_findings.json).",
     "technique": "Lean 4 proof over an executable model + schemas regenerated from source (decide) + differential correspondence with the implementation",
     "design": "§6 C02",
 }
